@@ -5,6 +5,7 @@ import (
 	"errors"
 	"fmt"
 	"runtime"
+	"sync"
 	"strconv"
 	"strings"
 	"time"
@@ -297,7 +298,7 @@ func rejects(outs []rig.Out) []rig.Out {
 
 func main() {
 	c := vk.Init("C06")
-	c.Rule(fmt.Sprintf("histories over an alphabet of %d symbols (3 good Logons at mid/min/max interval, 7 refused or damaged Logons, Heartbeat, TestRequest, 2 ResendRequests, Logout, application and unknown types, local Send, local Logout), both roles: EXHAUSTIVE over all histories up to length 3 (quick) / 4 (thorough), plus seeded random histories up to length 14 with varied heartbeat limits. Oracle: reference logon automaton transcribed from the statement, run against IsLogged / EventLogon / messages on Outgoing() after every step. distinct = distinct (role, limits, symbol sequence); non-trivial = the history contains a Logon decision", len(alpha)))
+	c.Rule(fmt.Sprintf("histories over an alphabet of %d symbols (3 good Logons at mid/min/max interval, 7 refused or damaged Logons, Heartbeat, TestRequest, 2 ResendRequests, Logout, application and unknown types, local Send, local Logout), both roles: EXHAUSTIVE over all histories up to length 3 (quick) / 4 (thorough), plus seeded random histories up to length 14 with varied heartbeat limits, plus real-time histories (N=1) in which the timers of an ended logon expire after a Logout before the next inbound message. Oracle: reference logon automaton transcribed from the statement, run against IsLogged / EventLogon / messages on Outgoing() after every step. distinct = distinct (role, limits, symbol sequence); non-trivial = the history contains a Logon decision", len(alpha)))
 	c.Assume("step driver: unbuffered handler, barrier handlers registered after Session.Run, so outputs are attributed to steps exactly; heartbeat intervals >= 5 s and histories finish in milliseconds, so no timer fires inside a history (histories slower than 4 s are inconclusive)")
 	maxLen := c.Pick(3, 4)
 	nRandom := c.Pick(1500, 40000)
@@ -352,5 +353,62 @@ func main() {
 			c.Count("history_retries", 1)
 		}
 	})
+	// real-time histories: timers armed by an earlier logon keep running after a Logout; whatever they do,
+	// the session must not report itself logged on again without a new Logon
+	nrt := c.Pick(4, 16)
+	var wg sync.WaitGroup
+	for i := 0; i < nrt; i++ {
+		wg.Add(1)
+		go func(i int) {
+			defer wg.Done()
+			role := rig.Role(i % 2)
+			closer := []string{"Heartbeat", "App", "TestRequest", "Unknown"}[(i/2)%4]
+			desc := fmt.Sprintf("%s N=1: LogonGood > Logout > 2.6 s of silence (timers from the ended logon expire) > %s", role, closer)
+			r, err := rig.NewStepRig(rig.StepCfg{Role: role, HeartBtInt: 1, Limits: &session.IntLimits{Min: 1, Max: 60}, Username: "me", Password: "secret",
+				OnLogon: func(ls *session.LogonSettings) error {
+					if !rig.Approve(ls.Username, ls.Password) {
+						return errors.New("refused")
+					}
+					return nil
+				}})
+			if err != nil {
+				c.Inconclusive("rig: " + err.Error())
+				return
+			}
+			defer r.Close()
+			p := rig.NewPeer()
+			if res := r.Inbound(p.Logon(1, "0", fixref.F(rig.TUser, "user"), fixref.F(rig.TPass, "pw"))); !res.Logged {
+				c.Inconclusive("no logon in " + desc)
+				return
+			}
+			res := r.Inbound(p.Logout())
+			if res.Logged {
+				return // C15's matter
+			}
+			time.Sleep(2600 * time.Millisecond)
+			if r.S.IsLogged() {
+				c.Violate("C06/logged-on-without-valid-logon/"+role.String()+"/after-logout-by-timer", desc+": IsLogged became true during the silence after the Logout", map[string]interface{}{"history": desc})
+				return
+			}
+			var msg []byte
+			switch closer {
+			case "Heartbeat":
+				msg = p.Heartbeat()
+			case "App":
+				msg = p.App("x")
+			case "TestRequest":
+				msg = p.TestRequest("t")
+			default:
+				msg = p.Msg("ZZ", fixref.F("58", "x"))
+			}
+			res = r.Inbound(msg)
+			c.Eval(vk.Hash64([]byte(desc)), true)
+			c.Count("realtime_histories", 1)
+			if res.Logged {
+				c.Violate("C06/logged-on-without-valid-logon/"+role.String()+"/after-logout-timer-expiry", desc+": IsLogged is true after a "+closer+" although no Logon followed the Logout; emitted "+types(res.Outs), map[string]interface{}{"history": desc})
+			}
+		}(i)
+	}
+	wg.Wait()
 	c.Finish()
 }
